@@ -55,6 +55,10 @@ def main(argv=None) -> int:
     if prop not in ENGINES:
         print(f"unknown property {prop}")
         return 2
+    if ENGINES[prop] == "crashfs" or prop == "C09":
+        from sim import crashfs
+
+        crashfs.ensure_preloaded([os.path.abspath(__file__), *sys.argv[1:]])
     if ENGINES[prop] == "fakempi" or os.environ.get("VERIF_FORCE_MPI") == "1":
         from sim import fakempi
 
